@@ -11,3 +11,9 @@ const D = defineComponent((p: { k: U; a?: string; b?: number } = { a: 'x', b: 1,
 const E = defineComponent((p: { a?: string } = { a: 'x', b: 1, c: 2, d: 3, e: 4, f: 5, g() {}, get h() { return 1 } }) => {});
 const F = defineComponent((p: Dup & Merge & Dup, c: SetupContext<{ change: []; input: [x: number]; change: [y: string]; blur: []; focus: []; k: [] }>) => {});
 const G = defineComponent((p: { u: U; v: 'x' | 1 | 'x' | true | 1 | null }) => {});
+interface Wide { v: string; w: Date; v: number | boolean | (() => void) | symbol; w: string[] | null | bigint | object }
+interface WideBase { v: string; k?: 1 } interface WideExt extends WideBase { v: number | boolean | Date | RegExp | Map<string, number>; k: 'a' | true | null | 2n }
+const H = defineComponent((p: Wide) => {});
+const I = defineComponent((p: WideExt) => {});
+const J = defineComponent((p: { v: string } & { v: number | boolean | object | symbol } & { v: Function | Date | string[] | Promise<void> }) => {});
+const K = defineComponent((p: { m(): void; m: string | number | boolean | null; get g(): number; g: string | Date | RegExp }) => {});
